@@ -21,6 +21,11 @@ let bits (v : bool list) : string =
   go v; Buffer.contents b
 let range256 = List.init 256 (fun i -> i)
 let named_ok name l = match valid_named name l N0 with NRes (ok, _) -> ok | _ -> failwith "fallback"
+(* valid_named = lookup + tester; for the 256/513-fold cases the lookup is done once per line *)
+let named_ok_fn name =
+  match lookup name with
+  | None -> failwith "fallback"
+  | Some v -> (fun l -> match tester v l N0 with Some (ok, _) -> ok | None -> failwith "fuel")
 let () = main_loop (function
   | ["nx"; h] -> "nx " ^ three (ints_of_hex h)
   | ["grid"; a; b] ->
@@ -48,11 +53,15 @@ let () = main_loop (function
        | NFuel -> "vnm MODEL-OUT-OF-FUEL")
   | ["sb1"; name] ->
       let nm = bytes_of_hex name in
-      "sb1 " ^ bits (List.map (fun b -> named_ok nm [byte_tab.(b)]) range256)
+      let f = named_ok_fn nm in
+      if named_ok nm [byte_tab.(65)] <> f [byte_tab.(65)] then "sb1 MODEL-INCONSISTENT" else
+      "sb1 " ^ bits (List.map (fun b -> f [byte_tab.(b)]) range256)
   | ["sb2"; name; a] ->
       let nm = bytes_of_hex name in
       let a = byte_tab.(int_of_string ("0x" ^ a)) in
-      "sb2 " ^ bits (List.map (fun b -> named_ok nm [a; byte_tab.(b)]) range256)
+      let f = named_ok_fn nm in
+      "sb2 " ^ bits (List.map (fun b -> f [a; byte_tab.(b)]) range256)
+      ^ (if named_ok nm [a] then " 1 " else " 0 ") ^ bits (List.map (fun b -> f [byte_tab.(b)]) range256)
   | ["enc"; cp] ->
       let c = n_of_int (int_of_string ("0x" ^ cp)) in
       Printf.sprintf "enc %s %d" (hex_of_bytes (encode c)) (int_of_z (width c))
@@ -62,6 +71,17 @@ let () = main_loop (function
        | FFiltered o -> "flt filtered " ^ hex_of_bytes o
        | FFallback -> "flt MODEL-FALLBACK"
        | FFuel -> "flt MODEL-OUT-OF-FUEL")
+  | ["frm"; loc; low; high; cs; h] ->
+      (* the encoding of a locale name lang_COUNTRY.encoding@variant is the part between the dot and the at sign; none: us-ascii *)
+      let l = ints_of_hex loc in
+      let rec after_dot = function [] -> None | 46 :: r -> Some r | _ :: r -> after_dot r in
+      let rec upto_at = function [] -> [] | 64 :: _ -> [] | x :: r -> x :: upto_at r in
+      let enc = match after_dot l with Some r -> upto_at r | None -> [117;115;45;97;115;99;105;105] in
+      let enc = List.map (fun b -> byte_tab.(b)) enc in
+      let v = bytes_of_hex h in
+      (match text_load (cs = "1") enc v, text_widget (cs = "1") enc v (z_of_int (int_of_string low)) (z_of_int (int_of_string high)) with
+       | Some (ok, _), Some r -> Printf.sprintf "frm %d %d %s" (if r then 1 else 0) (if ok then 1 else 0) (hex_of_bytes v)
+       | _ -> "frm MODEL-FALLBACK")
   | ["cmp"; name] -> (match lookup (bytes_of_hex name) with Some _ -> "cmp 1" | None -> "cmp 0")
   | ["u2u"; h] ->
       let l = bytes_of_hex h in
